@@ -15,6 +15,7 @@ CONSTANTS
     MaxTok,        \* subject names: up to MaxTok tokens ...
     Shapes,        \* ... plus these whole names (request shapes, reserved prefixes)
     InnerTokens,   \* inner names (one token or shape)
+    DeepNames,     \* names (block classes) of the deep tree kind: DeepDepth nested directories of that name
     Kinds2,        \* leaf kinds enumerated over all names up to MaxTok tokens (the others: one token / shape)
     Views,         \* protocol views to check
     HLs            \* handler lists
@@ -42,16 +43,30 @@ Cases == {Leaf(k, n) : k \in {"file", "mbox"}, n \in Names1} \cup {Leaf(k, n) : 
          \cup {Cont("dir", "a", "mapfile", m) : m \in Inner}
          \cup {Cont(k, n, ik, m) : k \in {"dir", "zip"}, n \in Names1, ik \in {"file", "dir"}, m \in Inner}
          \cup {Cont("mapdir", n, ik, m) : n \in Names1, ik \in {"file", "dir"}, m \in {x \in Inner : MapOk(x)}}
+         \cup {Leaf("deep", n) : n \in DeepNames}                                   \* the selector-LENGTH dimension
 
-Init == c \in Cases /\ p \in Views /\ hl \in HLs /\ res = [done |-> FALSE, scope |-> FALSE, fail |-> {}]
+\* concrete request-line lengths (bytes) of all links of a deep tree as a client of pp sends them
+DeepLens(pp, cc, hh) ==
+    {ReqBytes(Follow(pp, Target(pp, e), BaseRef(pp, cc, d, hh), "")) : <<d, e>> \in
+        UNION {{<<d, e>> : e \in Listing(cc, d, hh)} : d \in Dirs(cc, hh)}}
+
+Init == c \in Cases /\ p \in Views /\ hl \in HLs /\ res = [done |-> FALSE, scope |-> FALSE, fail |-> {}, lens |-> {}]
 Compute == /\ ~res.done
            /\ res' = [done |-> TRUE, scope |-> CaseExpressible(p, c),       \* out of scope: names p cannot express
-                    fail |-> IF CaseExpressible(p, c) THEN Failing(p, c, hl) ELSE {}]
+                    fail |-> IF CaseExpressible(p, c) THEN Failing(p, c, hl) ELSE {},
+                    lens |-> IF c.k = "deep" THEN DeepLens(p, c, hl) ELSE {}]
            /\ UNCHANGED <<c, p, hl>>
 Spec == Init /\ [][Compute]_vars
 
 QuoteOK == QuoteLemma(c.n) /\ QuoteLemma(c.m) /\ QuoteLemma(Subj(c) \o "|/MBOX-MESSAGE/1")
 ClosureKnown == \A f \in res.fail : f[3] \in KnownWhy
 ClosureStrictInv == res.fail = {}                     \* expected to be violated while findings are open
+\* the length dimension is really there: through every URL-based view the links of a deep tree of percent-coded
+\* names need request lines below and above 1 KiB, 4 KiB and 5 KiB and beyond 11 KiB; through the Gopher family
+\* (raw bytes, bounded by PATH_MAX) below and above 1 KiB and beyond 3.5 KiB
+Straddled(ls, t) == (\E a \in ls : a < t) /\ (\E b \in ls : b > t)
+LengthsCovered == (res.done /\ c.k = "deep" /\ Find(c.n, BLK) > 0) =>
+                     IF p \in UrlViews THEN (\A t \in {1024, 4096, 5120} : Straddled(res.lens, t)) /\ (\E b \in res.lens : b > 11000)
+                     ELSE Straddled(res.lens, 1024) /\ (\E b \in res.lens : b > 3500)
 NoCrash == \A f \in res.fail : f[3] # "CapturedBy_crash"
 =============================================================================
